@@ -141,6 +141,21 @@ def confirm_replay(path: str) -> Optional[bool]:
     return None
 
 
+def rerun_has_fingerprint(prop: str, tier: str, seed: int, fp: str) -> bool:
+    import tempfile
+    env = dict(os.environ)
+    env.update(VERIF_NO_CONFIRM="1", VERIF_SEED=str(seed), PYTHONHASHSEED="0")
+    with tempfile.TemporaryDirectory(prefix="mc_rerun_") as d:
+        env["VERIF_EVIDENCE_DIR"] = os.path.join(d, "ev")
+        env["VERIF_REPLAY_DIR"] = os.path.join(d, "rp")
+        try:
+            p = subprocess.run([sys.executable, "-m", "mc", "check", prop, "--tier", tier], cwd=VERIF, env=env,
+                               capture_output=True, text=True, timeout=7200)
+        except subprocess.TimeoutExpired:
+            return False
+    return f"fingerprint={fp} " in p.stdout
+
+
 def run_check(prop: str, tier: str, seed: int) -> int:
     mod = importlib.import_module(f"mc.props.{prop.lower()}")
     t0 = time.time()
@@ -187,7 +202,16 @@ def run_check(prop: str, tier: str, seed: int) -> int:
         if "case" in v and os.environ.get("VERIF_NO_CONFIRM") != "1":
             again = confirm_replay(path)
             if again is False:
-                sys.stderr.write(f"HARNESS ERROR: violation {fp} did not reproduce from {path} in a fresh process\n")
+                # Not reproducible from the single case.  Either the harness is nondeterministic (our bug) or the library
+                # carries state from one call to the next (its bug).  Decide by re-running the whole check in a fresh process.
+                if rerun_has_fingerprint(prop, tier, seed, fp):
+                    print(f"VIOLATION property={prop} replay={path}")
+                    print(f"  fingerprint={fp} instances={len(vs)} first: {v['detail']}")
+                    print("  note: fails only after other inputs were processed in the same interpreter (state leaks between calls); "
+                          "it reproduces when the whole check is re-run, not from the single case")
+                    lines += 1
+                    continue
+                sys.stderr.write(f"HARNESS ERROR: violation {fp} did not reproduce from {path} in a fresh process, nor in a re-run\n")
                 write_evidence(prop, tier, seed, cov, res.get("assumptions", []), time.time() - t0, len(acc.viols))
                 return 2
         print(f"VIOLATION property={prop} replay={path}")
